@@ -224,6 +224,44 @@ Definition descriptor_tree (d : entity_descriptor) : option node :=
   | None => None
   end.
 
+(* ---------- reading a descriptor back out of an unmarshalled value (Schema.gval), field by Go field name ---------- *)
+Definition g_field (name : string) (g : gval) : option gval :=
+  match g with GStruct fs => assoc_get name fs | _ => None end.
+Definition g_sub (name : string) (o : option gval) : option gval :=
+  match o with Some g => g_field name g | None => None end.
+Definition g_str (o : option gval) : string := match o with Some (GStr s) => s | _ => "" end.
+Definition g_bool (o : option gval) : bool := match o with Some (GBool b) => b | _ => false end.
+Definition g_int (o : option gval) : Z := match o with Some (GInt z) => z | _ => 0 end.
+Definition g_time (o : option gval) : instant := match o with Some (GTime t) => t | _ => zero_time end.
+Definition g_slice (o : option gval) : list gval := match o with Some (GSlice l) => l | _ => [] end.
+
+Definition gval_kd (g : gval) : key_descriptor :=
+  let certs := map (fun x => g_str (g_field "Data" x))
+                   (g_slice (g_sub "X509Certificates" (g_sub "X509Data" (g_field "KeyInfo" g)))) in
+  let ms := g_slice (g_field "EncryptionMethods" g) in
+  {| kd_use := g_str (g_field "Use" g);
+     kd_cert := hd "" certs;
+     kd_methods := map (fun m => g_str (g_field "Algorithm" m)) ms;
+     kd_key_info := certs;
+     kd_method_digests := map (fun m => match g_field "DigestMethod" m with
+                                        | Some (GPtr (Some dg)) => Some (g_str (g_field "Algorithm" dg))
+                                        | _ => None
+                                        end) ms |}.
+
+Definition gval_descriptor (g : gval) : entity_descriptor :=
+  let sp := match g_field "SPSSODescriptor" g with Some (GPtr (Some s)) => Some s | _ => None end in
+  {| ed_valid_until := g_time (g_field "ValidUntil" g);
+     ed_entity_id := g_str (g_field "EntityID" g);
+     ed_authn_requests_signed := g_bool (g_sub "AuthnRequestsSigned" sp);
+     ed_want_assertions_signed := g_bool (g_sub "WantAssertionsSigned" sp);
+     ed_protocol := g_str (g_sub "ProtocolSupportEnumeration" sp);
+     ed_key_descriptors := map gval_kd (g_slice (g_sub "KeyDescriptors" sp));
+     ed_acs := map (fun e => (g_str (g_field "Binding" e), g_str (g_field "Location" e), g_int (g_field "Index" e)))
+                   (g_slice (g_sub "AssertionConsumerServices" sp));
+     ed_slo := map (fun e => (g_str (g_field "Binding" e), g_str (g_field "Location" e)))
+                   (g_slice (g_sub "SingleLogoutServices" sp));
+     ed_spsso_present := match sp with Some _ => true | None => false end |}.
+
 (* ---------- observables ---------- *)
 Definition instant_val (t : instant) : val := VC "T" [VZ (i_sec t); VZ (i_nsec t)].
 Definition kd_val (kd : key_descriptor) : val := VC "KD" [VS (kd_use kd); VS (kd_cert kd); VL (map VS (kd_methods kd))].
